@@ -21,7 +21,11 @@ def alg_inv(a, ranges):
 
 
 def register(reg):
-    fn, loop, pred = reg.fn, reg.loop, reg.pred
+    loop, pred = reg.loop, reg.pred
+
+    def fn(q, **kw):
+        kw.setdefault("nla", "uf")
+        return reg.fn(q, **kw)
     tree_preds(reg)
     N = ["HOO_node"]
     INV = alg_inv("self", "self.rho > 0 and self.rounds >= 1 and self.nu > 0")
@@ -49,3 +53,152 @@ def register(reg):
     loop("T_HOO.updateBackwardTree", 2, props="C05",
          invariants=[("tempB", "tempB == lmaxb(children, _k)"),
                      ("same", "children is node.children and children is not None")])
+
+    # ---------------------------------------------------------------- shared shapes
+    NL = "self.partition.node_list"
+    ALLN = "for h in range(self.partition.depth + 1) for k in range(len(%s[h]))" % NL
+    pred("UFormula_HOO", "A, n",
+         "implies(n.visited_times != 0, n.u_value == xr(n.mean_reward + sqrt(2 * ln(A.rounds) / n.visited_times) "
+         "+ A.nu * rpow(A.rho, n.depth)))")
+    pred("PathOK", "P, path", "len(path) >= 1 and len(path) <= P.depth + 1 "
+                              "and all(path[k].depth == k and path[k] in P.node_list[k] for k in range(len(path)))")
+    pred("Credited", "n, reward",
+         "n.visited_times == old(n.visited_times) + 1 and len(n.rewards) == old(len(n.rewards)) + 1 "
+         "and n.rewards[old(len(n.rewards))] == reward "
+         "and all(n.rewards[q] == old(n.rewards[q]) for q in range(old(len(n.rewards)))) "
+         "and n.mean_reward == lsum(n.rewards) / n.visited_times")
+    pred("Untouched", "n",
+         "n.visited_times == old(n.visited_times) and n.rewards is old(n.rewards) and len(n.rewards) == old(len(n.rewards)) "
+         "and all(n.rewards[q] == old(n.rewards[q]) for q in range(len(n.rewards)))")
+    pred("Greedy", "path",
+         "all(path[k].children is not None and path[k + 1].parent is path[k] "
+         "and all(path[k].children[j].b_value <= path[k + 1].b_value for j in range(len(path[k].children))) "
+         "for k in range(len(path) - 1))")
+    EVID_TARGETS = ["HOO_node.visited_times n where n in path", "HOO_node.mean_reward n where n in path",
+                    "list[real:reward] r where owner(r) in path and owner(r).rewards is r"]
+
+    # ---------------------------------------------------------------- updateUvalueTree (C05)
+    fn("T_HOO.updateUvalueTree", N=N, props="C01 C04 C05", params={},
+       requires=INV,
+       modifies=["*HOO_node.u_value", "*HOO_node.b_value", "*HOO_node.mean_reward"],
+       ensures=[("formula", "all(UFormula_HOO(self, %s[h][k]) %s)" % (NL, ALLN), "C05"),
+                ("Inv.evidence", "AllNodes_Evidence(self.partition)", "C04"),
+                ("Inv.uinf", "AllNodes_UInf(self.partition)", "C05")])
+    loop("T_HOO.updateUvalueTree", 0, props="C05 C04",
+         invariants=[
+             ("nl", "node_list is %s" % NL),
+             ("done", "all(UFormula_HOO(self, %s[h][k]) for h in range(_k) for k in range(len(%s[h])))" % (NL, NL)),
+             ("evidence", "AllNodes_Evidence(self.partition)"), ("uinf", "AllNodes_UInf(self.partition)"),
+         ])
+    loop("T_HOO.updateUvalueTree", 1, props="C05 C04",
+         invariants=[
+             ("nl", "node_list is %s and layer is %s[_k0] and 0 <= _k0 and _k0 <= self.partition.depth" % (NL, NL)),
+             ("done", "all(UFormula_HOO(self, %s[h][k]) for h in range(_k0) for k in range(len(%s[h])))" % (NL, NL)),
+             ("prefix", "all(UFormula_HOO(self, layer[k]) for k in range(_k))"),
+             ("evidence", "AllNodes_Evidence(self.partition)"), ("uinf", "AllNodes_UInf(self.partition)"),
+         ])
+
+    # ---------------------------------------------------------------- updateRewardTree (C04)
+    fn("T_HOO.updateRewardTree", N=N, props="C01 C04", params={"path": "list[ref:$N]", "reward": "real"},
+       requires=INV + [("path", "PathOK(self.partition, path)", "C04")],
+       modifies=EVID_TARGETS + ["self.iteration"],
+       ensures=[("credited", "all(Credited(path[k], reward) for k in range(len(path)))", "C04"),
+                ("Inv.evidence", "AllNodes_Evidence(self.partition)", "C04"),
+                ("rounds", "self.iteration == old(self.iteration) + 1", "C04")])
+    loop("T_HOO.updateRewardTree", 0, props="C04", modifies=EVID_TARGETS,
+         invariants=[
+             ("done", "all(Credited(path[j], reward) for j in range(_k))"),
+             ("todo", "all(Untouched(path[j]) for j in range(_k, len(path)))"),
+             ("evidence", "AllNodes_Evidence(self.partition)"),
+         ])
+
+    # ---------------------------------------------------------------- optTraverse (C05)
+    fn("T_HOO.optTraverse", N=N, props="C01 C05", params={}, returns="tuple[ref:$N,list[ref:$N]]",
+       requires=INV, modifies=[],
+       ensures=[("path", "fresh(result[1]) and PathOK(self.partition, result[1])", "C05 C04"),
+                ("end", "result[0] is result[1][len(result[1]) - 1] and result[1][0] is self.partition.root "
+                        "and result[0].children is None", "C05 C06"),
+                ("greedy", "Greedy(result[1])", "C05")])
+    loop("T_HOO.optTraverse", 0, props="C05", modifies=["list(path)"],
+         decreases="self.partition.depth - curr_node.depth",
+         invariants=[
+             ("path", "fresh(path) and PathOK(self.partition, path) and path[len(path) - 1] is curr_node "
+                      "and path[0] is self.partition.root"),
+             ("greedy", "Greedy(path)"),
+         ])
+    loop("T_HOO.optTraverse", 1, props="C05", modifies=[],
+         invariants=[
+             ("kids", "children is curr_node.children and children is not None"),
+             ("max", "maxchild.parent is curr_node and maxchild.depth == curr_node.depth + 1 "
+                     "and maxchild in self.partition.node_list[maxchild.depth] "
+                     "and all(children[j].b_value <= maxchild.b_value for j in range(_k + 1))"),
+         ])
+
+    # ---------------------------------------------------------------- expand / updateAllTree / API (C03 C04 C05 C06)
+    fn("T_HOO.expand", N=N, inline=True, params={"parent": "ref:$N"})
+    BCONS_ALL = ("Bcons", "all(Bcons(%s[h][k]) %s)" % (NL, ALLN), "C05")
+    # the published expansion rule: the pulled leaf is split iff its depth is at most ceil((ln(n)/2 - ln(1/nu)) / ln(1/rho))
+    RULE = ("rule", "iff(end.children is not None, "
+                    "old(end.depth) <= real(ceil((ln(self.rounds) / 2 - ln(1 / self.nu)) / ln(1 / self.rho))))", "C06")
+    AFTER = [
+        ("credited", "all(Credited(path[k], reward) for k in range(len(path)))", "C04"),
+        ("others", "all(implies(not (%s[h][k] in path), Untouched(%s[h][k])) "
+                   "for h in range(old(self.partition.depth) + 1) for k in range(old(len(%s[h]))))" % (NL, NL, NL), "C04"),
+        ("formula", "all(UFormula_HOO(self, %s[h][k]) %s)" % (NL, ALLN), "C05"),
+        BCONS_ALL,
+        ("kids-new", "implies(end.children is not None, all(fresh(end.children[j]) and NodeInit(end.children[j]) "
+                     "for j in range(len(end.children))))", "C06"),
+        ("only-here", "all(implies(%s[h][k] is not end, %s[h][k].children is old(%s[h][k].children)) "
+                      "for h in range(old(self.partition.depth) + 1) for k in range(old(len(%s[h]))))" % (NL, NL, NL, NL), "C06 C03"),
+        ("layers-append-only", "all(%s[h][k] is old(%s[h][k]) for h in range(old(self.partition.depth) + 1) "
+                               "for k in range(old(len(%s[h]))))" % (NL, NL, NL), "C03 C04"),
+    ]
+    W_END = {"end": ("ref:$N", "path[len(path) - 1]")}
+    W_END_SELF = {"end": ("ref:$N", "old(self.path[len(self.path) - 1])"), "path": ("list[ref:$N]", "old(self.path)")}
+
+    def with_w(cl, w):
+        return [(c[0], c[1], c[2], w) for c in cl]
+
+    UPD_MOD = ["HOO_node.visited_times n where n in path", "HOO_node.mean_reward n where n in path",
+               "list[real:reward] r where owner(r) in path and owner(r).rewards is r",
+               "*HOO_node.u_value", "*HOO_node.b_value", "*HOO_node.mean_reward", "self.iteration",
+               "path[len(path) - 1].children", "self.partition.depth", "list(self.partition.node_list)",
+               "list(self.partition.node_list[path[len(path) - 1].depth + 1]) if path[len(path) - 1].depth < self.partition.depth"]
+    fn("T_HOO.updateAllTree", N=N, props="C01 C03 C04 C05 C06", params={"path": "list[ref:$N]", "reward": "real"},
+       requires=INV + [("path", "PathOK(self.partition, path)", "C04 C03"),
+                       ("leaf", "path[len(path) - 1].children is None", "C03 C06"),
+                       ("ranges2", "self.rho < 1", "C01")],
+       modifies=UPD_MOD,
+       ensures=INV + with_w(AFTER + [RULE], W_END))
+    PULL_ENS = [
+        ("path", "defined(self.path) and fresh(self.path) and PathOK(self.partition, self.path)", "C04 C05"),
+        ("end", "self.path[0] is self.partition.root and self.path[len(self.path) - 1].children is None", "C05 C06"),
+        ("greedy", "Greedy(self.path)", "C05"),
+        ("result", "result is self.path[len(self.path) - 1].c_point", "C01 C04"),
+    ]
+    fn("T_HOO.pull", N=N, props="C01 C04 C05 C15", params={"time": "int"}, returns="list[real]",
+       requires=INV, modifies=["self.path"], ensures=INV + PULL_ENS)
+    fn("T_HOO.get_last_point", N=N, props="C01 C15", params={}, returns="list[real]",
+       requires=INV, modifies=["self.path"], ensures=INV + PULL_ENS)
+    fn("T_HOO.receive_reward", N=N, props="C01 C03 C04 C05 C06 C15", params={"time": "int", "reward": "real"},
+       requires=INV + [("pulled", "defined(self.path) and PathOK(self.partition, self.path) "
+                                  "and self.path[len(self.path) - 1].children is None", "C04"),
+                       ("ranges2", "self.rho < 1", "C01")],
+       modifies=[m.replace("path", "self.path") for m in UPD_MOD],
+       ensures=INV + with_w(AFTER + [RULE], W_END_SELF))
+    fn("T_HOO.__init__", N=N, props="C01 C03 C06",
+       params={"nu": "real", "rho": "real", "rounds": "int", "domain": "list?[list[real]]", "partition": "cls?:Partition"},
+       requires=[("ranges", "nu > 0 and 0 < rho and rho < 1 and rounds >= 1", "C01"),
+                 ("box", "implies(domain is not None, Box(domain))", "C01")],
+       raises={"ValueError": "domain is None or partition is None"},
+       ensures=INV + [("root-split", "self.partition.depth == 1 and self.partition.root.children is not None", "C06"),
+                      ("own", "fresh(self.partition) and self.partition.domain is domain", "C14")])
+
+    reg.cut("T_HOO.updateAllTree", "if#0", props="C04 C05 C06", clauses=[
+        ("formula", "all(UFormula_HOO(self, %s[h][k]) %s)" % (NL, ALLN)),
+        ("evidence", "AllNodes_Evidence(self.partition)"),
+        ("uinf", "AllNodes_UInf(self.partition)"),
+        ("kids-u", "implies(path[len(path) - 1].children is not None, all(path[len(path) - 1].children[j].u_value == inf "
+                   "and path[len(path) - 1].children[j].children is None "
+                   "for j in range(len(path[len(path) - 1].children))))"),
+    ])
